@@ -392,6 +392,22 @@ func genClauseSweep(r *rand.Rand, facts *c19Facts, tier string) []*Probe {
 	for _, m := range misc {
 		add("MISC", m)
 	}
+	// set operators whose operands carry analytic functions (and with them per-record sort values), followed by
+	// clauses that apply to the combined result
+	for _, op := range []string{"UNION", "UNION ALL", "EXCEPT", "INTERSECT"} {
+		for _, fn := range []string{"RANK() OVER (ORDER BY a)", "ROW_NUMBER() OVER (PARTITION BY b ORDER BY a)", "SUM(a) OVER ()", "LAG(a) OVER (ORDER BY c, a)"} {
+			for _, tail := range []string{"ORDER BY a", "ORDER BY 2, 1", "ORDER BY a LIMIT 2 WITH TIES", "ORDER BY a DESC OFFSET 1", "LIMIT 50 PERCENT"} {
+				curArg = op + " / " + fn + " / " + tail
+				add("SET-ANALYTIC", fmt.Sprintf("SELECT a, %s FROM t %s SELECT a, 0 FROM t %s", fn, op, tail))
+				add("SET-ANALYTIC", fmt.Sprintf("SELECT a, 0 FROM t %s SELECT a, %s FROM t %s", op, fn, tail))
+				// the select list is the table's own columns in their order, the analytic column last: nothing to rearrange
+				add("SET-ANALYTIC", fmt.Sprintf("SELECT a, b, c, %s FROM t %s SELECT a, b, c, 0 FROM t %s", fn, op, tail))
+				add("SET-ANALYTIC", fmt.Sprintf("SELECT *, %s FROM t %s SELECT *, 0 FROM t %s", fn, op, tail))
+				add("SET-ANALYTIC", fmt.Sprintf("SELECT x.a, x.r FROM (SELECT a, %s AS r FROM t %s SELECT a, 1 FROM e) AS x %s", fn, op, strings.Replace(tail, "ORDER BY a", "ORDER BY x.a", 1)))
+			}
+		}
+	}
+	curArg = ""
 	return ps
 }
 
@@ -422,7 +438,10 @@ func genCLISweep(r *rand.Rand, tier string) []*Probe {
 	}
 	fmts := []string{"CSV", "TSV", "FIXED", "JSON", "JSONL", "LTSV", "GFM", "ORG", "BOX", "TEXT"}
 	for _, f := range fmts {
-		for _, q := range []string{"SELECT * FROM t", "SELECT * FROM e", "SELECT 1 AS `a.b`, 2 AS `a.c`, 3 AS `a`", "SELECT 1 AS `a`, 2 AS `a.b`", "SELECT 'a\nb' AS `x\ny`, '\t', '\"', '|', NULL, TRUE, 1.5, NOW()", "SELECT 1 AS ``, 2 AS ` `", "SELECT '" + strings.Repeat("w", 3000) + "' AS x"} {
+		for _, q := range []string{"SELECT * FROM t", "SELECT * FROM e", "SELECT 1 AS `a.b`, 2 AS `a.c`, 3 AS `a`", "SELECT 1 AS `a`, 2 AS `a.b`", "SELECT 'a\nb' AS `x\ny`, '\t', '\"', '|', NULL, TRUE, 1.5, NOW()", "SELECT 1 AS ``, 2 AS ` `", "SELECT '" + strings.Repeat("w", 3000) + "' AS x",
+			// values and column names that end in / consist of / contain line-break and other control characters
+			"SELECT 'ends with cr\r' AS a, 'x\r\ny' AS b, '\r' AS c, 'tab\t' AS d, '\n' AS e, 'cr\rmid' AS f, 'ends with crlf\r\n' AS g, 'k' AS `h\r`",
+			"SELECT '\r\r' AS a, '\n\r' AS b, 'e\u0301\r' AS d, 'あ\r' AS e, '\u200b' AS f, '\x1b[31mred' AS g"} {
 			ps = append(ps, sqlProbe("cli", "--format", q, "-f", f))
 			ps = append(ps, sqlProbe("cli", "--format", q, "-f", f, "--without-header", "--enclose-all", "--write-delimiter-positions", "[1,2,3]", "--line-break", "CRLF", "--write-encoding", "SJIS", "--pretty-print"))
 			ps = append(ps, sqlProbe("cli", "--format", q, "-f", f, "--write-delimiter-positions", "S[1]", "--write-encoding", "UTF16", "--json-escape", "HEX"))
